@@ -24,7 +24,11 @@ class Obligation(object):
 
 
 def norm_src(s):
-    return ast.unparse(ast.parse(s.strip()).body[0])
+    s = s.strip()
+    if s.endswith(":"):
+        # header pattern of a compound statement: matches on the first line of its unparse
+        return ast.unparse(ast.parse(s + "\n    pass").body[0]).split("\n")[0]
+    return ast.unparse(ast.parse(s).body[0])
 
 
 class FunctionCtx(object):
@@ -79,6 +83,14 @@ class FunctionCtx(object):
         return "%s:%s" % (self.module.relpath, ln)
 
     def oblig(self, kind, st, goal, where, text=""):
+        if z3.is_and(goal) and goal.num_args() > 1:
+            # split a conjunction into one obligation per conjunct (earlier conjuncts assumed)
+            tmp = st.fork()
+            last = None
+            for i, g in enumerate(goal.children()):
+                last = self.oblig(kind, tmp, g, where, "%s [conjunct %d]" % (text, i + 1))
+                tmp.assume(g)
+            return last
         n = self.counters.get(kind, 0) + 1
         self.counters[kind] = n
         name = "%s#%s.%d" % (self.qualname, kind, n)
@@ -127,12 +139,19 @@ class Executor(object):
         """returns list of Outcome; at most one 'normal' outcome"""
         outs = []
         cur = st
-        for s in stmts:
+        import os
+        for idx_, s in enumerate(stmts):
             if cur is None:
                 break
             res = self.stmt(s, cur)
             normals = [o.st for o in res if o.kind == "normal"]
             outs.extend(o for o in res if o.kind != "normal")
+            if os.environ.get("PYVC_NO_MERGE") and len(normals) > 1:
+                lo = self.loop_ord
+                for nst in normals:
+                    self.loop_ord = lo
+                    outs.extend(self.block(stmts[idx_ + 1:], nst))
+                return outs
             cur = merge_states(normals) if normals else None
         if cur is not None:
             outs.append(Outcome("normal", cur))
@@ -140,6 +159,8 @@ class Executor(object):
 
     def stmt(self, s, st):
         src = ast.unparse(s)
+        if isinstance(s, (ast.If, ast.For, ast.While, ast.Try, ast.With)):
+            src = src.split("\n")[0]
         outs = []
         # site assertions / ghost code attached to this statement
         if src in self.pat_asserts:
@@ -653,11 +674,17 @@ class Executor(object):
         for r in c.get("requires", []):
             st.assume(self.spec_bool(r, st))
         fx.entry_state = st.fork()
+        if c.get("ghost_entry"):
+            st = self.ghost(c["ghost_entry"], st)
         outs = self.block(fdef.body, st.fork())
         # unmatched patterns -> attachment error
         for kind, tbl in (("a", self.pat_asserts), ("ga", self.pat_ghost_after), ("gb", self.pat_ghost_before)):
             for pat in tbl:
                 if (kind, pat) not in self.matched_patterns:
+                    if kind == "a":
+                        # proof hints are optional: an unmatched hint only weakens the proof search
+                        fx.notes.append("hint pattern matches no statement: %s" % pat)
+                        continue
                     raise AttachError("contract pattern does not match any statement of %s: %s" % (fx.qualname, pat))
         nloops = self.loop_ord
         for k in c.get("loops", {}):
